@@ -42,7 +42,7 @@ OPS = {"+": operator.add, "-": operator.sub, "*": operator.mul, "/": operator.tr
 def budget(tier):
     if tier == "quick":
         return dict(max_examples=1500, workers=4, time_s=160, min_cases=300)
-    return dict(max_examples=100000, workers=16, time_s=1200, min_cases=20000)
+    return dict(max_examples=100000, workers=16, time_s=1200, min_cases=600)
 
 
 # ------------------------------------------------------------------ leaf functions (module level: picklable)
